@@ -5,6 +5,7 @@ import Mathlib.Tactic.NormNum
 import Mathlib.Algebra.Order.Field.Rat
 import ERP.Lemmas.GenArith
 import ERP.Lemmas.GenConsts
+import ERP.Lemmas.GenTies
 /-! # C08 — Exclusion decisions are invariant under re-encoding of the same tool path
 
 The decision taken for a move is a function of its *native* destination, the regions and the
